@@ -27,6 +27,7 @@ class NSGCoordinator(GameCoordinator):
         self._data = {} # Dict of all services in the environment. Keys: hostname (`str`), values `set` of `Service` objetcs.
         self._firewall = {} # dict of all the allowed connections in the environment. Keys `IP` ,values: `set` of `IP` objects.
         self._fw_blocks = {}
+        self._data_content = {} # Content of the data. Keys: (hostname, data id), values: content (str)
         # All exploits in the environment
         self._exploits = {}
         # A list of all the hosts where the attacker can start in a random start
